@@ -409,3 +409,174 @@ func init() {
 		r.build(top.ID, "build", nil, "", "after an index-preferring collection")
 	})
 }
+
+func init() {
+	// a source DIRECTORY that holds a symbolic link to a file outside it: pointing the link at another file, and editing
+	// the file behind it, change what the target reads
+	engScenarios = append(engScenarios, func(r *engRun) {
+		d := r.addSourceDir("")
+		sd := r.p.Sources[d]
+		if !sd.Links["l0.c"] {
+			r.dirLink(sd, "l0.c", true)
+		}
+		r.emitDir(sd, "initial")
+		a := r.mkTarget("", nil, []int{d}, 1, false, 0)
+		top := r.mkTarget("", []int{a.ID}, nil, 1, false, 0)
+		r.emitProj("scenario: a symbolic link inside a source directory")
+		r.build(top.ID, "build", nil, "", "scenario")
+		for _, fresh := range []bool{true, false, true} {
+			r.dirLink(sd, "l0.c", fresh)
+			if fresh {
+				r.emitDir(sd, "link inside a source directory points to another file")
+			} else {
+				r.emitDir(sd, "edit of the file behind a link inside a source directory")
+			}
+			o := r.build(top.ID, "build", nil, "", "after the link change")
+			if o.Kind == "build" && o.OK {
+				r.checkClean(top.ID)
+			}
+		}
+	})
+}
+
+func init() {
+	// missing dependencies whose labels are near-misses of existing targets (the loader then suggests a name): still one
+	// lone failed event for the dependent
+	engScenarios = append(engScenarios, func(r *engRun) {
+		s := r.mkSource("")
+		a := r.mkTarget("", nil, []int{s}, 1, false, 0)
+		one := r.mkTarget("", []int{902}, nil, 0, false, 0)
+		mix := r.mkTarget("", []int{a.ID, 903}, nil, 0, false, 0)
+		top := r.mkTarget("", []int{one.ID}, nil, 0, false, 0)
+		r.p.Unknown = map[int]string{902: r.p.label(a.ID) + "x", 903: strings.Replace(r.p.label(one.ID), ":t", ":tt", 1)}
+		r.emitProj("scenario: misspelled dependencies")
+		for _, id := range []int{one.ID, mix.ID, top.ID} {
+			r.build(id, "build", nil, "", "scenario")
+		}
+		r.build(mix.ID, "dry", nil, "", "scenario")
+	})
+	// oracle-only scenarios (states the sequential model does not express): (1) the directory that holds a generated file
+	// is replaced by a regular file, so the up-to-date check of its generator fails: a dry run of that tree still changes
+	// nothing; (2) a body deletes the state directory's temp directory and fails, so the failure cannot be recorded: the
+	// target still produces exactly one failed event
+	engScenarios = append(engScenarios, func(r *engRun) {
+		s := r.mkSource("")
+		g := r.mkTarget("", nil, []int{s}, 1, false, 0)
+		g.Gens = []int{r.p.newPath("gendir/sub/g.out0")} // an output in a directory of its own (not a package)
+		top := r.mkTarget("", []int{g.ID}, nil, 1, false, 0)
+		r.emitProj("scenario: faults around the up-to-date check and the failure record")
+		r.build(top.ID, "build", nil, "", "scenario")
+		// (2) first: the tree is intact
+		_, r.execPos = readLines(filepath.Join(r.root, ".exec.log"), 0)
+		r.editSource(s)
+		r.extraEnv = []string{"VERIF_FAILRM=" + r.p.label(g.ID)}
+		rep, _, hung := r.child("build", r.p.label(top.ID), nil, "")
+		r.extraEnv = nil
+		if hung || rep == nil || rep.LoadErr != "" {
+			r.oracle("C18 build with an unrecordable failure: no report (hung=%v)", hung)
+		} else {
+			ranLines, _ := readLines(filepath.Join(r.root, ".exec.log"), r.execPos)
+			var ran []int
+			for _, l := range ranLines {
+				ran = append(ran, r.labelIDAny(l))
+			}
+			_, run := r.eventsByLabel(rep)
+			r.checkProtocol(run, ran, "build", rep.RunErr, r.p.label(top.ID))
+			if rep.RunErr == "" {
+				r.oracle("C18 a build whose body failed reported success")
+			}
+		}
+		// to the model this is a build cut short: the source was recorded, the body of g ran (and failed) after its re-run
+		// mark, and no further record was written
+		recs, _ := r.records()
+		r.h.Ops = append(r.h.Ops, mOp{Op: "build", Label: top.ID, Mode: "build", Fail: []int{g.ID}, Note: "failure that cannot be recorded",
+			Obs: &mObs{Kind: "crash", Ran: []int{g.ID}, Started: []int{g.ID}, Recorded: []int{s}, Premarked: []int{g.ID}, Recs: recs, Events: map[string][]string{}}})
+		r.build(top.ID, "build", nil, "", "recovery")
+		// (1) the package directory of the generator becomes a file
+		gen := filepath.Join(r.root, r.p.Paths[g.Gens[0]])
+		dir := filepath.Dir(gen)
+		saved := dir + ".saved"
+		if err := os.Rename(dir, saved); err == nil {
+			os.WriteFile(dir, []byte("not a directory\n"), 0644)
+			rep, _, hung := r.child("dry", r.p.label(top.ID), nil, "")
+			if hung || rep == nil {
+				r.oracle("C13 dry run with an unreadable output directory: no report (hung=%v)", hung)
+			} else if rep.LoadErr == "" && rep.HashBefore != rep.HashAfter {
+				r.oracle("C13 dry run of %s changed the tree (files or persisted state) although it only failed to check a target", r.p.label(top.ID))
+			}
+			os.Remove(dir)
+			os.Rename(saved, dir)
+			o := r.build(top.ID, "build", nil, "", "after the directory came back")
+			if o.Kind == "build" && o.OK && len(o.Ran) != 0 {
+				r.oracle("C13 a dry run changed what the next build does: %v ran although the tree is what was built", o.Ran)
+			}
+		}
+	})
+}
+
+func init() {
+	// two collections in one long-lived process with a Reload between them: build; then, in ONE process, collect, a target
+	// and a source are added, Reload, Run, collect again -- the second collection keeps the records of the labels that
+	// exist then
+	engScenarios = append(engScenarios, func(r *engRun) {
+		s := r.mkSource("")
+		a := r.mkTarget("", nil, []int{s}, 1, false, 0)
+		top := r.mkTarget("", []int{a.ID}, nil, 1, false, 0)
+		r.emitProj("scenario: two collections around a Reload in one process")
+		r.build(top.ID, "build", nil, "", "scenario")
+		// the next state of the tree, rendered aside
+		stage, err := os.MkdirTemp(filepath.Dir(r.root), "stage-")
+		if err != nil {
+			return
+		}
+		defer os.RemoveAll(stage)
+		s2 := r.addSource("")
+		lit := r.p.nextLit
+		r.p.nextLit++
+		r.litOf[r.p.Sources[s2].Path] = lit
+		os.WriteFile(filepath.Join(stage, r.p.Paths[r.p.Sources[s2].Path]), []byte(fmt.Sprintf("lit-%d\n", lit)), 0644)
+		b := r.mkTarget("", nil, []int{s2}, 1, false, 1)
+		top.Deps = []int{a.ID, b.ID}
+		if err := r.p.render(stage); err != nil {
+			return
+		}
+		_, r.execPos = readLines(filepath.Join(r.root, ".exec.log"), 0)
+		r.extraEnv = []string{"VERIF_STAGE=" + stage}
+		rep, _, hung := r.child("gc+reload+run+gc", r.p.label(top.ID), nil, "")
+		r.extraEnv = nil
+		if hung || rep == nil || rep.LoadErr != "" {
+			r.oracle("C14 collect, reload, run, collect in one process: no report (hung=%v)", hung)
+			return
+		}
+		// the same history for the model: gc; the tree changes; build (in process); gc
+		r.h.Ops = append(r.h.Ops, mOp{Op: "gc", Obs: &mObs{Kind: "gc-noobs"}})
+		r.emitFile(r.p.Sources[s2].Path, lit, "initial")
+		r.emitProj("add a target and a source (staged, then Reload)")
+		ranLines, _ := readLines(filepath.Join(r.root, ".exec.log"), r.execPos)
+		var ran []int
+		for _, l := range ranLines {
+			ran = append(ran, r.labelIDAny(l))
+		}
+		sort.Ints(ran)
+		by, run := r.eventsByLabel(rep)
+		r.checkProtocol(run, ran, "build", rep.RunErr, r.p.label(top.ID))
+		r.h.Ops = append(r.h.Ops, mOp{Op: "build", Label: top.ID, Mode: "build", Note: "in process, after Reload", Obs: &mObs{Kind: "skip-recs", OK: rep.RunErr == "", Ran: ran, Events: by}})
+		recs, _ := r.records()
+		r.h.Ops = append(r.h.Ops, mOp{Op: "gc", Obs: &mObs{Kind: "gc", Recs: recs}})
+		liveIDs := map[int]bool{}
+		for _, m := range r.p.model() {
+			liveIDs[m.ID] = true
+		}
+		for _, n := range rep.Notes {
+			if strings.HasPrefix(n, "removed:") {
+				if id := r.recordFileLabel(strings.TrimPrefix(n, "removed:")); liveIDs[id] {
+					r.oracle("C14 gc removed the record %s of existing label %d (second collection of one process, after a Reload)", strings.TrimPrefix(n, "removed:"), id)
+				}
+			}
+		}
+		o := r.build(top.ID, "build", nil, "", "fresh process after the two collections")
+		if o.Kind == "build" && o.OK && len(o.Ran) != 0 {
+			r.oracle("C14 a collection changed what the next build executes: %v ran although nothing changed", o.Ran)
+		}
+	})
+}
